@@ -626,6 +626,10 @@ func leaseRandom(r *rng) leaseScn {
 		if feff > 1 && r.chance(1, 2) {
 			shared = (parts-1)*feff + 1 + uint32(r.intn(int(feff)-1))
 		}
+		if r.chance(1, 3) {
+			// the top of the uint32 range: any arithmetic on the shared capacity that is not done in a wider type wraps here
+			shared = 4294967295 - uint32(r.intn(int(feff)))
+		}
 	}
 	latMode := r.intn(6)
 	for i := 0; i < ni; i++ {
@@ -704,7 +708,7 @@ func leaseRandom(r *rng) leaseScn {
 				act = fmt.Sprintf("g%d:%d", i, v)
 			}
 		case c < 14 && s.gen == 2:
-			act = fmt.Sprintf("c%d:%d", i, uint32(r.pick(0, 1, int(feff), int(shared), int(shared+2*feff), int(600*feff))))
+			act = fmt.Sprintf("c%d:%d", i, uint32(r.pick(0, 1, int(feff), int(shared), int(shared+2*feff), int(600*feff), 4294967295)))
 		case c < 15:
 			act = fmt.Sprintf("X%d", i)
 		case c < 16:
